@@ -1016,6 +1016,45 @@ pub fn generate(s: &mut Session, thorough: bool) -> bool {
         s.push_oracle("clusterx-threshold", req, imp, why);
     }
 
+    // one-ulp twins across the linking threshold: a chain with exact links, and at its end two points
+    // with the same (r, phi) whose z are neighbouring doubles, one exactly at the threshold (linked) and
+    // one just beyond (not linked), the unlinked one FIRST in the input. Points are told apart with `==`:
+    // the clustered twin, not its neighbour, leaves the remainder (seed C15-10 matched points to within
+    // f64::EPSILON and removed the wrong one)
+    for i in 0..(if thorough { 300 } else { 60 }) {
+        let maxd = *rng.pick(&[0.03125, 0.25, 0.0078125]);
+        let n = rng.range(3, 20) as usize;
+        let (r, phi) = (RC + 0.08 * rng.f64_unit(), (rng.f64_unit() * 2.0 - 1.0) * PI);
+        let chain: Vec<SpacePoint> = (0..n).map(|k| sp(r, phi, k as f64 * maxd)).collect();
+        let z_link = n as f64 * maxd;
+        let z_beyond = f64::from_bits(z_link.to_bits() + 1);
+        let z_beyond2 = f64::from_bits(z_link.to_bits() + 2);
+        let mut pts = Vec::new();
+        match i % 3 {
+            0 => {
+                pts.push(sp(r, phi, z_beyond));
+                pts.extend(chain.iter().copied());
+                pts.push(sp(r, phi, z_link));
+            }
+            1 => {
+                pts.push(sp(r, phi, z_beyond2));
+                pts.push(sp(r, phi, z_beyond));
+                pts.push(sp(r, phi, z_link));
+                pts.extend(chain.iter().copied());
+            }
+            _ => {
+                // twins in r instead of z at the far end of the chain (same bins or not, as it falls)
+                pts.push(sp(f64::from_bits(r.to_bits() + 1), phi, -maxd));
+                pts.extend(chain.iter().copied());
+                pts.push(sp(r, phi, -maxd));
+                pts.push(sp(r, phi, z_beyond));
+            }
+        }
+        let cfg = Config { min: *rng.pick(&[2usize, 3]), rho_bins: 250, theta_bins: 230, max_distance: maxd };
+        let (req, imp, why) = run_clusterx("clusterx", &pts, cfg);
+        s.push_oracle("clusterx-ulp-twins", req, imp, why);
+    }
+
     // clouds with a NaN coordinate (outside C15's quantifier: `p == p` is false and the real
     // `remove_unchecked` panics when such a point is in a best cluster): the model must panic
     // exactly when the implementation does; no oracle verdict.
